@@ -115,7 +115,7 @@ def run(run):
     rh = ev.run(h.node)
     tl = ("sym", h.params()[0])
     csn = ("attr", tl, "corners")
-    want = ("call", ("sym", "subsample"), (("sub", csn, num(0)), ("sub", csn, num(1)), ("sub", csn, num(2)), ("sub", csn, num(3)), num(256),
+    want = ("call", ("sym", "subsample"), (("item", csn, 0), ("item", csn, 1), ("item", csn, 2), ("item", csn, 3), num(256),
                                           ("attr", tl, "increasing")), ())
     want2 = ("call", ("sym", "subsample"), (("item", csn, 0), ("item", csn, 1), ("item", csn, 2), ("item", csn, 3), num(256), ("attr", tl, "increasing")), ())
     rets = rh.returns
@@ -127,6 +127,8 @@ def run(run):
             return True
         return t[0] == "call" and t[1][0] == "attr" and t[1][2] == "get" and t[1][1][0] == "sym" and t[1][1][1] in tabs
 
+    # `a, b = subsample(...); return a, b` is the same pair (the wrapper returns two arrays: checked below)
+    want2 = ("tuple", (("item", want, 0), ("item", want, 1)))
     bad = [(pc, t, n) for pc, t, n in rets if t not in (want, want2) and not is_table_lookup(t)]
     if not rets:
         run.undecided("C05.R2", h, None, "toast_tile_get_coords has no return", kind="no-return")
@@ -155,8 +157,8 @@ def run(run):
     if okw:
         a = inner[0].term[2]
         def pt(p):
-            return ("call", ("sym", "Point"), (("call", ("sym", "DTYPE"), (("sub", ("sym", p), num(0)),), ()),
-                                               ("call", ("sym", "DTYPE"), (("sub", ("sym", p), num(1)),), ())), ())
+            return ("call", ("sym", "Point"), (("call", ("sym", "DTYPE"), (("item", ("sym", p), 0),), ()),
+                                               ("call", ("sym", "DTYPE"), (("item", ("sym", p), 1),), ())), ())
         okw = tuple(a[:4]) == tuple(pt(p) for p in pw[:4])
         okw = okw and (a[6] == ("sym", pw[5]) or a[6] == ("ite", ("sym", pw[5]), num(1), num(0)))
         ret = rw.returns[0][1]
